@@ -159,6 +159,40 @@ unsafe impl<#[may_dangle] T> Drop for Rc<T> {
     }
 }
 
+/// Remove `this` from the adoption graph and release its link table.
+///
+/// `Rc::try_unwrap` and `Rc::make_mut` give up an allocation without running
+/// `Rc::drop`. If `this` has adopted other `Rc`s, or has been adopted, the
+/// other objects still hold links that point at the allocation, and the link
+/// table of the allocation is never dropped. A later drop of one of the former
+/// peers would trace through the abandoned allocation.
+///
+/// # Safety
+///
+/// `this` must be the only strong reference to its allocation and the
+/// allocation must not be used as an `Rc` afterwards.
+pub(crate) unsafe fn abandon_links<T>(this: &Rc<T>) {
+    let forward = Link::forward(this.ptr);
+    let backward = Link::backward(this.ptr);
+    let links = this.inner().links();
+    for (item, &strong) in links.borrow().iter() {
+        // if `this` has adopted itself, there is nothing to remove in another
+        // object.
+        if ptr::eq(this.inner(), item.as_ptr()) {
+            continue;
+        }
+        let mut links = item.as_ref().links().borrow_mut();
+        links.remove(forward, strong);
+        links.remove(backward, strong);
+    }
+    let rcbox = this.ptr.as_ptr();
+    // Move the links `HashMap` out of the `RcBox` and destroy it. The strong
+    // count of the allocation is about to become zero, so the uninhabited
+    // `MaybeUninit` is never read again.
+    let links = mem::replace(&mut (*rcbox).links, MaybeUninit::uninit());
+    drop(links.assume_init());
+}
+
 unsafe fn drop_unreachable<T>(this: &mut Rc<T>) {
     debug!("cactusref detected unreachable Rc");
     let forward = Link::forward(this.ptr);
